@@ -352,6 +352,64 @@ fn late_limit(first: Option<u64>, late: u64, upto: u64) -> Result<(bool, Option<
     out
 }
 
+/// `k` cancelled (or over-budget) evaluations in a row on one evaluator, the request withdrawn
+/// each time; afterwards the call-depth threshold of direct recursion must be what it is on a
+/// fresh evaluator (whatever one failed evaluation leaves behind adds up).
+/// Returns the largest depth in 0..=upto that succeeds afterwards.
+fn depth_after_repeated_cancel(k: u64, upto: u64, by_budget: bool) -> Result<Option<u64>, String> {
+    kit::ctx_reset();
+    let mut out = Err("not run".to_owned());
+    Module::with_temp_heap(|module| {
+        let mut eval = Evaluator::new(&module);
+        let flag = Rc::new(Cell::new(false));
+        let f2 = flag.clone();
+        eval.set_check_cancelled(Box::new(move || f2.get()));
+        let ev = |eval: &mut Evaluator, text: &str| match kit::parse("rc.star", text) {
+            Ok(ast) => eval.eval_module(ast, kit::globals()).map(|_| ()),
+            Err(e) => Err(e),
+        };
+        if let Err(e) = ev(&mut eval, "def r(k):\n    if k == 0:\n        return 0\n    return 1 + r(k - 1)\ndef spin(n):\n    for i in range(n):\n        pass\n") {
+            out = Err(format!("setup: {e}"));
+            return;
+        }
+        for i in 0..k {
+            let r = if by_budget {
+                // A budget that the next evaluation exceeds (cumulative count), raised afterwards.
+                let now = eval.get_total_tick_count();
+                let _ = eval.set_max_tick_count(now + 1500);
+                let r = ev(&mut eval, "spin(4000)\n");
+                let _ = eval.set_max_tick_count(u64::MAX);
+                r
+            } else {
+                flag.set(true);
+                let r = ev(&mut eval, "spin(4000)\n");
+                flag.set(false);
+                r
+            };
+            if r.is_ok() {
+                out = Err(format!("round {i}: the limit did not fire"));
+                return;
+            }
+        }
+        let mut last_ok = None;
+        for d in 0..=upto {
+            match ev(&mut eval, &format!("emit(r({d}))\n")) {
+                Ok(()) => last_ok = Some(d),
+                Err(e) => {
+                    if !matches!(e.kind(), starlark::ErrorKind::StackOverflow(_)) {
+                        out = Err(format!("depth {d} after {k} limit errors: {}", kit::clip(&format!("{e}"))));
+                        return;
+                    }
+                    break;
+                }
+            }
+        }
+        out = Ok(last_ok);
+    });
+    kit::ctx_reset();
+    out
+}
+
 /// Largest depth in lo..=hi that succeeds under limit n, after checking there is one threshold.
 fn threshold(o: &mut Outcome, shape: &str, n: u64, lo: u64, hi: u64, key: &str) -> Option<u64> {
     let mut last_ok: Option<u64> = None;
@@ -738,7 +796,14 @@ impl World for C15 {
                     let per_iter = b - a;
                     let lib = frozen_lib();
                     let lib_loader = kit::MapLoader { modules: [("lib".to_owned(), lib)].into_iter().collect() };
-                    let paths: [(&str, &str, &str); 15] = [
+                    let paths: [(&str, &str, &str); 21] = [
+                        // a def stored under the name of a builtin method of another type
+                        ("struct_field_named_get", "def g0(x):\n    return x\nS = struct(get = g0)\n", "S.get(i)"),
+                        ("struct_field_named_pop", "def g0(x):\n    return x\nS = struct(pop = g0)\n", "S.pop(i)"),
+                        ("struct_field_named_append", "def g0(x):\n    return x\nS = struct(append = g0)\n", "S.append(i)"),
+                        ("struct_field_named_index", "def g0(x):\n    return x\nS = struct(index = g0, items = g0)\n", "S.index(S.items(i))"),
+                        ("namespace_field_named_update", "def g0(x):\n    return x\nS = namespace(update = g0)\n", "S.update(i)"),
+                        ("record_field_named_keys", "def g0(x):\n    return x\nRk = record(keys = typing.Any)\nS = Rk(keys = g0)\n", "S.keys(i)"),
                         ("star_args", "def g(*a):\n    return a\n", "g(*[i])"),
                         ("star_kwargs", "def g(**kw):\n    return kw\n", "g(**{\"k\": i})"),
                         ("default_args", "def g(x, y = [1], *, z = 2):\n    return [x, y, z]\n", "g(i)"),
@@ -821,6 +886,23 @@ impl World for C15 {
                     let pr = fresh_probe();
                     if !pok || pt != pr {
                         o.violate("probe-differs-after-limit", &key, format!("after overflow: probe ok={pok} `{perr}` {:?}", kit::diff_transcripts(&pr, &pt)));
+                    }
+                }
+                // Many limit errors in a row on one evaluator: the depth threshold stays what it is.
+                if shape == "direct" && case["default_limit"].as_bool().unwrap_or(false) {
+                    // (a tick budget can be set only once per evaluator and counts cumulatively, so
+                    // only cancellation can be repeated)
+                    let by_budget = false;
+                    let want = threshold(&mut o, "direct", 50, 40, 53, "depth/direct");
+                    match depth_after_repeated_cancel(60, 53, by_budget) {
+                        Ok(got) => {
+                            o.bump("probe.repeated_limit_errors_then_depth", 1);
+                            if got != want {
+                                o.violate("depth-limit-not-enforced", "depth/after-repeated-limit-errors", format!("after 60 {} evaluations on one evaluator direct recursion succeeds up to depth {got:?}, on a fresh evaluator up to {want:?}", if by_budget { "over-budget" } else { "cancelled" }));
+                            }
+                        }
+                        Err(e) if e.contains("did not fire") => o.bump("invalid_cells", 1),
+                        Err(e) => o.violate("depth-limit-not-enforced", "depth/after-repeated-limit-errors", e),
                     }
                 }
                 // The limit configured (again) after the evaluator has already been used.
